@@ -213,7 +213,13 @@ class World:
                 self.items = list(items)
 
             def __aiter__(self):
-                self.i = 0
+                return AItIter(self.items)          # a fresh iterator per loop (nested loops over the same object)
+
+        class AItIter:
+            def __init__(self, items):
+                self.items, self.i = items, 0
+
+            def __aiter__(self):
                 return self
 
             async def __anext__(self):
@@ -443,7 +449,7 @@ def run(ctx):
     loop = asyncio.new_event_loop()
     all_sites = {}
     pending = []
-    n_sets = ctx.size(130, 300)
+    n_sets = ctx.size(130, 700)
     try:
         for ti in range(n_sets):
             ts = FIXED[ti] if ti < len(FIXED) else G36(ctx.rng, filter_gens=(ti % 4 == 3)).template_set()
